@@ -62,6 +62,7 @@ D3 == [ i |-> <<"int", 2>>, f |-> <<"f64", FALSE, <<1,5>>, -1>>, s |-> <<"str", 
         sl |-> <<"slice", <<<<"int", 1>>, <<"str", <<98>>>>>>>>, ss |-> <<"strs", <<<<97>>, <<98>>>>>>, u |-> <<"uint", 3>>,
         t |-> <<"time", 0, 0, 0>>, rec |-> <<"func", "rec">>, fail |-> <<"func", "fail">>, failv |-> <<"func", "failv">>, add2 |-> <<"func", "add2">>, cat |-> <<"func", "cat">>,
         nan |-> <<"f64nan">>, inf |-> <<"f64inf", FALSE>>, ninf |-> <<"f64inf", TRUE>>, nb |-> <<"nilbig">>,
+        sc6 |-> <<"dec", FALSE, <<6,0,0>>, -2>>, sc1e3 |-> <<"dec", FALSE, <<1>>, 3>>,       \* whole numbers held with a scale: 6.00 and 1e3
         crec |-> <<"func", "crec">>, cstr |-> <<"func", "cstr">> ]
 \* C10: full map and its restrictions are built by the driver
 D10 == [ a |-> <<"map", [b |-> <<"map", [c |-> <<"int", 1>>]>>, k |-> <<"int", 2>>]>>, b |-> <<"int", 3>>, c |-> <<"str", <<99>>>>,
